@@ -279,6 +279,13 @@ impl<'tcx> D<'tcx> {
                 Const::Val(mir::ConstValue::ZeroSized, _) => {
                     o.push(("zst", J::B(true)));
                 }
+                Const::Val(mir::ConstValue::Scalar(mir::interpret::Scalar::Ptr(ptr, _)), _) => {
+                    // the address of a static: name it
+                    let aid = ptr.provenance.alloc_id();
+                    if let Some(mir::interpret::GlobalAlloc::Static(sd)) = self.tcx.try_get_global_alloc(aid) {
+                        o.push(("static", J::S(self.path(sd))));
+                    }
+                }
                 _ => {
                     if let Some(si) = c.const_.try_eval_scalar_int(self.tcx, env) {
                         o.push(("int", J::S(si.to_bits_unchecked().to_string())));
